@@ -314,7 +314,8 @@ class MessageManager(ClientLike):
                 self.remove_module(module)
                 return False
 
-            for m in self.modules.values():
+            # Note: iterate over a copy, logging can remove a module whose write fails
+            for m in list(self.modules.values()):
                 if m is module:
                     continue
 
@@ -361,6 +362,10 @@ class MessageManager(ClientLike):
         Args:
             module (Module): Module object to remove
         """
+        # Already removed (e.g. by a write failure discovered while handling another one)
+        if self.modules.get(module.conn) is not module:
+            return
+
         # Drop all subscriptions for this module
         for msg_type in module.subs:
             self.subscriptions[msg_type].discard(module)
@@ -581,6 +586,10 @@ class MessageManager(ClientLike):
 
         for n in range(len(subscribers)):
             module = subscribers[n]
+            # Skip modules removed while delivering to an earlier subscriber
+            if self.modules.get(module.conn) is not module:
+                continue
+
             if module.conn in self.wlist:
                 try:
                     if (
@@ -590,7 +599,7 @@ class MessageManager(ClientLike):
                     ):
                         module.send_message(header, data)
                         module.drops = 0
-                except ConnectionError as err:
+                except OSError as err:
                     self.remove_module(module)
                     self.logger.error(
                         f"Connection Error on write to {module!s} - {err!s}"
@@ -604,7 +613,7 @@ class MessageManager(ClientLike):
                 try:
                     module.send_message(header, data)
                     module.drops = 0
-                except ConnectionError as err:
+                except OSError as err:
                     self.remove_module(module)
                     self.logger.error(
                         f"Connection Error on write to {module!s} - {err!s}"
@@ -631,14 +640,19 @@ class MessageManager(ClientLike):
             header (MessageHeader): Message header to send
             payload (Union[bytes, MessageData]): Message data to send
         """
-        for module in self.logger_modules:
+        # Note: iterate over a copy, a failed send removes the module from the set
+        for module in list(self.logger_modules):
+            # Skip modules removed while delivering to an earlier logger
+            if self.modules.get(module.conn) is not module:
+                continue
+
             if module.conn not in self.wlist:
                 # Block until logger is ready
                 select.select([], [module.conn], [], None)
             try:
                 module.send_message(header, payload)
                 module.drops = 0
-            except ConnectionError as err:
+            except OSError as err:
                 self.remove_module(module)
                 self.logger.error(f"Connection Error on write to {module!s} - {err!s}")
                 print("x", end="", flush=True)
@@ -687,7 +701,7 @@ class MessageManager(ClientLike):
 
         try:
             src_module.send_message(header, b"")
-        except ConnectionError as err:
+        except OSError as err:
             self.remove_module(src_module)
             self.logger.error(f"Connection Error on write to {src_module!s} - {err!s}")
             print("x", end="", flush=True)
